@@ -34,6 +34,7 @@ THEOREMS = [
     "C09_refused_rules", "C09_ra_iff_recursion", "C09_sections_are_resolver_output",
     "C09_udp_512_tc_exact", "C09_tcp_prefix_exact", "C09_framing_never_panics",
     "C09_tcp_short_read", "C09_answers_on_chain_unless_referral", "C09_known_referral_witness",
+    "C09_unserialisable_reply_witness",
 ]
 RULE = ("pure cases (harness): framing of byte strings of 0..70000 octets around the 12 / 512 / 65535 boundaries with every value "
         "of octet 2, TCP streams with every relation of announced and delivered length, decode + make_response; non-trivial = "
@@ -118,8 +119,8 @@ def generate(rng, tier):
         cases.append("server TCPR %s 00" % e)
         cases.append("server TCPR %s ff" % e)
     # decode + make_response / make_format_error_response
-    for h in wiregen.header_sweep_messages(tier)[:600 if tier == "quick" else 100000]:
-        cases.append("server RESP " + hexb(h))
+    for hm in wiregen.header_sweep_messages(tier)[:600 if tier == "quick" else 100000]:
+        cases.append("server RESP " + hexb(wiregen.encode(hm, mode="whole")))
     for b in wiregen.truncations(base):
         cases.append("server RESP " + hexb(b))
     while len(cases) < n:
